@@ -9,7 +9,7 @@ from harness import gen
 from harness.framework import CaseTimeout, Suite
 
 PID = "C17"
-LEAN_MODS = ["SwcVerif.Props.C17", "SwcVerif.Props.C17Gen", "SwcVerif.Props.C17Front"]
+LEAN_MODS = ["SwcVerif.Props.C17", "SwcVerif.Props.C17Gen", "SwcVerif.Props.C17Front", "SwcVerif.Props.C17Rest"]
 TRANSLATE_ALGO = ["AlgoMst", "AlgoMstFront", "AlgoMstRest"]     # (AlgoMstFront: the whole __call__ up to the tree construction) Gen/AlgoMst.lean is regenerated on every run from transforms/mst.py (the greedy loop of PointsToCuntzMST.__call__)
 DRIVER_FILES = ["SwcVerif/Model/AlgoRunMst.lean", "SwcVerif/Model/AlgoRunMstFront.lean", "SwcVerif/Model/AlgoRunMstRest.lean"]
 THEOREMS = ["C17.init_inv", "C17.greedy_step", "C17.step_inv", "C17.spanning", "C17.branching_limit", "C17.prim_step", "C17.prim_minimal", "C17.prim_attains",
@@ -21,7 +21,10 @@ THEOREMS = ["C17.init_inv", "C17.greedy_step", "C17.step_inv", "C17.spanning", "
             "C17.generated_greedy_step", "C17.generated_prim_minimal", "C17.generated_prim_attains",
             # refinement of the WHOLE __call__ (soma handling, distance matrix with the vector norm as a parameter, loop, table assembly), regenerated on every run
             "RefineMstFront.for1_step'", "RefineMstFront.mst_call_refines", "C17.generated_call_eq_model", "C17.table_rows", "C17.generated_call_spanning",
-            "C17.generated_call_branching_limit", "C17.generated_call_prim_minimal", "C17.generated_call_prim_attains", "C17.generated_call_raises_empty", "C17.generated_call_raises_bad_soma"]
+            "C17.generated_call_branching_limit", "C17.generated_call_prim_minimal", "C17.generated_call_prim_attains", "C17.generated_call_raises_empty", "C17.generated_call_raises_bad_soma",
+            # the constructors (every spelling of the arguments) and the final sort, regenerated on every run (Gen/AlgoMstRest)
+            "C17.generated_cuntz_init", "C17.clip_spec", "C17.generated_mst_init", "C17.generated_ctor_limit", "C17.generated_cuntz_ctor",
+            "C17.rootPath_of_up", "C17.wfr_of_spanning", "C17.generated_tail_sorted", "C17.generated_call_sorted_spanning"]
 TRUSTED = ["hand-written model Model/Mst.lean of the greedy loop: PROVED equal (RefineMst.mst_loop_refines, every n > 0, every n × n matrix, every option) to "
            "Gen.Algo.mst_loop, the definition the imperative translator regenerates on every run from PointsToCuntzMST.__call__ (pid = np.full … end of the "
            "for loop); trusted there: the translator and Model/Py.lean (float arrays as arrays over a numeric type, run at Rat; 2-d arrays as lists of rows; "
